@@ -30,6 +30,12 @@ def write(pid, tier, seed, cfg, unit_results, obligations, bounded, structural, 
                                  "external_members (not verified)": ex.get("external_members"),
                                  "external_body_members (contract assumed)": ex.get("external_body_members"),
                                  "items_extracted": len(ex.get("items", [])),
+                                 "expanded_sources (rustc macro expansion of /repo, this run)": ex.get("expanded_sources"),
+                                 "generated_sources (from data files of /repo, this run)": ex.get("generated_sources"),
+                                 "auto_extracted_callees": ex.get("auto_extracted_callees"),
+                                 "lost_assert_anchors": ex.get("lost_assert_anchors"),
+                                 "dropped_contract_pieces": ex.get("dropped_contract_pieces"),
+                                 "notes": r.get("notes"),
                                  "generated_file": r.get("generated")}
         canaries[r["unit"]] = r.get("canaries")
     kani_cmds = [o["kani"]["cmd"] for o in obligations if o.get("kani")] + [h["cmd"] for h in bounded]
